@@ -580,6 +580,26 @@ func TestDefaultEntryPoints(t *testing.T) {
 // (500) whose body is the error text, with a matching Content-Length, and of
 // course no 101. (HTTPUpgrader.Header is not asserted on this path.)
 
+// sigNoHijackHeader: the 500 that HTTPUpgrader answers through a ResponseWriter
+// it cannot hijack does not carry HTTPUpgrader.Header.
+const sigNoHijackHeader = "C09/not-hijackable-response-omits-header"
+
+func probeNoHijackHeader(t *testing.T) {
+	raw := reqgen.Valid("/chat", "example.com", gridKey).Render()
+	r, err := http.ReadRequest(bufio.NewReader(bytes.NewReader(raw)))
+	if err != nil {
+		t.Fatalf("net/http refuses the canonical request: %v", err)
+	}
+	w := tx.NewPlainWriter()
+	u := ws.HTTPUpgrader{Header: http.Header{"X-Srv-A": {"a"}}}
+	_, _, _, uerr := u.Upgrade(r, w)
+	hx.Eval()
+	present := uerr != nil && w.Status == 500 && w.HeaderAtWriteHeader.Get("X-Srv-A") != "a"
+	hx.Probe(t, sigNoHijackHeader,
+		fmt.Sprintf("HTTPUpgrader{Header: X-Srv-A: a}.Upgrade with a ResponseWriter that is no http.Hijacker answers %d with header %v: the configured header is missing", w.Status, w.HeaderAtWriteHeader),
+		present, map[string]interface{}{"request": string(raw), "config": "ws.HTTPUpgrader{Header: http.Header{\"X-Srv-A\": {\"a\"}}}", "writer": "no Hijack method", "err": fmt.Sprint(uerr), "status": w.Status, "header": fmt.Sprint(w.HeaderAtWriteHeader), "body": w.Body.String()})
+}
+
 var errHijackBroken = fmt.Errorf("hijack: connection already taken over")
 
 func TestHTTPNotHijackable(t *testing.T) {
@@ -587,6 +607,11 @@ func TestHTTPNotHijackable(t *testing.T) {
 		plan := reqgen.GenPlan(t, "plan", reqgen.HTTP)
 		req := reqgen.GenRequest(t, "req", plan)
 		cfg := reqgen.GenConfig(t, "cfg", reqgen.HTTP, plan)
+		if rapid.IntRange(0, 3).Draw(t, "withHeader") > 0 && len(cfg.ResponseHeaders()) == 0 {
+			// HTTPUpgrader.Header with content in most of these cases
+			cfg.HeaderForm = reqgen.HeaderHTTP
+			cfg.Header = []reqgen.HeaderKV{{Name: rapid.SampledFrom([]string{"X-Srv-A", "Server", "Set-Cookie"}).Draw(t, "hname"), Value: rapid.SampledFrom([]string{"a", "b c", "v=1; path=/"}).Draw(t, "hvalue")}}
+		}
 		variant := rapid.SampledFrom([]string{"no-hijacker", "hijack-not-supported", "hijack-fails"}).Draw(t, "writer")
 		viaDefault := rapid.Bool().Draw(t, "viaUpgradeHTTP")
 		raw := req.Render()
@@ -643,6 +668,18 @@ func TestHTTPNotHijackable(t *testing.T) {
 			fail(fmt.Sprintf("body is not the error text %q", gotErr.Error()))
 		case hdr.Get("Content-Length") != strconv.Itoa(len(body)):
 			fail(fmt.Sprintf("Content-Length %q does not match the %d-byte body", hdr.Get("Content-Length"), len(body)))
+		}
+		// "with the caller's extra headers"; HTTPUpgrader.Header: "it will be
+		// written in any result of handshake"
+		if m := missingHeaders(hdr, cfg.ResponseHeaders()); m != "" {
+			if hx.Known(sigNoHijackHeader) {
+				hx.Exclude(sigNoHijackHeader)
+				return
+			}
+			fail(fmt.Sprintf("configured HTTPUpgrader.Header entry %q is missing from the 500 answered through the ResponseWriter", m))
+		}
+		if len(cfg.ResponseHeaders()) > 0 {
+			hx.Class("nohijack/with-configured-Header")
 		}
 	})
 }
@@ -1156,6 +1193,9 @@ func TestKnownFindings(t *testing.T) {
 
 	// C09/upgrade-value-unicode-fold (fixed in /repo 20e9951)
 	probeUnicodeFold(t)
+
+	// C09/not-hijackable-response-omits-header
+	probeNoHijackHeader(t)
 }
 
 func probeUnicodeFold(t *testing.T) {
